@@ -1,7 +1,7 @@
 (* Props/C09.v — The k-space trajectory is the running integral of the gradients.
    Only statements, each closed by [exact] of a lemma from Proofs/KSpaceProofs.v, with Print Assumptions. *)
 From Coq Require Import ZArith QArith Qabs List Bool Arith Lia Lqa.
-From PV Require Import Base.QUtil Base.PWL Gen.GenExport Model.Export Model.KSpace Proofs.KSpaceProofs.
+From PV Require Import Base.QUtil Base.PWL Gen.GenExport Model.Export Model.KSpace Proofs.KSpaceProofs Proofs.PrimProofs.
 Import ListNotations.
 Open Scope Q_scope.
 
@@ -43,6 +43,30 @@ Theorem C09_adc_times_formula : forall start a i, (i < adc_n a)%nat ->
   == start + adc_delay a + (inject_Z (Z.of_nat i) + (1 # 2)) * adc_dwell a.
 Proof. exact adc_times_formula. Qed.
 Print Assumptions C09_adc_times_formula.
+
+(* the antiderivative used for the moments is the exact integral of the corner list: at c it is the area of
+   the part of p to the left of c (cut_left inserts the interpolated corner at c); hence differences of
+   prim are areas between two cuts; 0 left of the first corner, the whole area right of the last *)
+Theorem C09_prim_is_integral : forall p a b, sorted_strict (times p) ->
+  prim p b - prim p a == area (cut_left b p) - area (cut_left a p).
+Proof. exact prim_is_integral. Qed.
+Print Assumptions C09_prim_is_integral.
+Theorem C09_prim_cut : forall p c, sorted_strict (times p) -> prim p c == area (cut_left c p).
+Proof. exact prim_cut. Qed.
+Print Assumptions C09_prim_cut.
+Theorem C09_prim_total : forall p t, sorted_strict (times p) -> tlast p <= t -> prim p t == area p.
+Proof. exact prim_total. Qed.
+Print Assumptions C09_prim_total.
+
+(* PARTIAL (name kept): without excitation / refocusing pulses the final k is the area of the (padded)
+   exported waveform.  Missing for the full statement "sum of the areas of all gradient events":
+   area (padded w) == area w for zero end values, and area (join ps) == sum of the piece areas for an
+   edge-consistent chain (both are checked on the implementation by the oracle: C09/final-k-no-rf). *)
+Theorem C09_no_rf_final_is_sum_of_areas_partial : forall w T, w <> [] ->
+  sorted_strict (times (padded w)) -> tlast (padded w) <= T -> 0 <= tfirst (padded w) ->
+  k_at (moment w) [] T == area (padded w).
+Proof. exact no_rf_final_is_area. Qed.
+Print Assumptions C09_no_rf_final_is_sum_of_areas_partial.
 
 (* Non-vacuity / sanity *)
 Example C09_classify_example :
